@@ -29,7 +29,7 @@ pub struct SeenConn {
     pub handshake_error: Option<String>,
 }
 
-fn set_linger_zero(s: &TcpStream) {
+pub fn set_linger_zero(s: &TcpStream) {
     let l = libc::linger { l_onoff: 1, l_linger: 0 };
     unsafe {
         libc::setsockopt(s.as_raw_fd(), libc::SOL_SOCKET, libc::SO_LINGER, &l as *const _ as *const libc::c_void, std::mem::size_of::<libc::linger>() as libc::socklen_t);
@@ -191,6 +191,22 @@ pub fn hang_up(raw: &TcpStream, h: Hangup) {
     }
 }
 
+thread_local! {
+    static LISTENER: std::cell::RefCell<Option<TcpListener>> = const { std::cell::RefCell::new(None) };
+}
+
+/// A clone of this thread's long-lived loopback listener (bound on first use). A run's accept thread ends before the
+/// next run of the same thread starts, so the clones never accept concurrently.
+pub fn thread_listener() -> io::Result<TcpListener> {
+    LISTENER.with(|c| {
+        let mut g = c.borrow_mut();
+        if g.is_none() {
+            *g = Some(TcpListener::bind("127.0.0.1:0")?);
+        }
+        g.as_ref().unwrap().try_clone()
+    })
+}
+
 pub struct TcpPrinter {
     pub port: u16,
     stop: Arc<AtomicBool>,
@@ -206,7 +222,9 @@ impl TcpPrinter {
 
     /// `key_by_op`: choose the script by IPP operation id instead of request-id (ipputil always uses request-id 1)
     pub fn start_keyed(scripts: BTreeMap<u32, Script>, key_by_op: bool) -> io::Result<TcpPrinter> {
-        let l = TcpListener::bind("127.0.0.1:0")?;
+        // one listener per thread, bound once and reused by every run of that thread: per-run binds are what
+        // fails first when tens of thousands of loopback connections sit in TIME_WAIT
+        let l = thread_listener()?;
         let port = l.local_addr()?.port();
         let stop = Arc::new(AtomicBool::new(false));
         let seen = Arc::new(Mutex::new(Vec::new()));
@@ -250,7 +268,9 @@ impl TcpPrinter {
             std::thread::sleep(Duration::from_micros(200));
         }
         self.stop.store(true, Ordering::SeqCst);
-        let _ = TcpStream::connect(("127.0.0.1", self.port));
+        if let Ok(w) = TcpStream::connect(("127.0.0.1", self.port)) {
+            crate::tcp::set_linger_zero(&w); // wake the accept loop; abort instead of close: no TIME_WAIT left behind
+        }
         if let Some(a) = self.accept.take() {
             let _ = a.join();
         }
